@@ -29,11 +29,18 @@ if [ $rc -ne 0 ]; then
   exit 2
 fi
 
+# run a private copy: another run.sh (another property, or an edit in between)
+# may rebuild bin/$BIN while this run is still spawning its child processes
+find work -maxdepth 1 -name '.vcheck*' -mmin +600 -delete 2>/dev/null
+RUNBIN="work/.$BIN.$PROP.$$"
+cp "bin/$BIN" "$RUNBIN" || exit 2
+trap 'rm -f "$RUNBIN"' EXIT
 if [ "$MODE" = "--replay" ]; then
-  exec "bin/$BIN" -replay "${3:?replay file}"
+  "$RUNBIN" -replay "${3:?replay file}"
+  exit $?
 fi
 case "$MODE" in quick) LIMIT=1500 ;; thorough) LIMIT=14000 ;; *) echo "unknown tier $MODE" >&2; exit 2 ;; esac
-timeout -k 30 $LIMIT "bin/$BIN" -prop "$PROP" -tier "$MODE" -seed "$SEED"
+timeout -k 30 $LIMIT "$RUNBIN" -prop "$PROP" -tier "$MODE" -seed "$SEED"
 rc=$?
 if [ $rc -eq 124 ] || [ $rc -eq 137 ]; then
   echo "HARNESS: $PROP $MODE exceeded the overall watchdog (${LIMIT}s); inconclusive, no verdict" >&2
